@@ -5,4 +5,4 @@ import SwV.Spec.C18Run
 import SwV.Spec.C18
 open SwV.Drv SwV.Model.C18 SwV.Spec.C18Run
 
-def main : IO Unit := run { init := ({} : St), step := drvStep SwV.Spec.C18.judge }
+def main : IO Unit := run { init := ({} : St), step := drvStepL SwV.Spec.C18.judge SwV.Spec.C18.judgeRenameLate }
